@@ -25,6 +25,7 @@ class Loop:
     modifies: tuple = ()                      # local names (and 'obj.field' strings) the loop may write
     variant: Optional[Callable] = None        # while loops: (cx, env) -> z3 Int term that must decrease and stay >= 0
     unroll: bool = False
+    body_post: Optional[Callable] = None      # (cx, env, i, events of this iteration) -> list[(name, z3 Bool)]
 
 
 class Contract:
